@@ -108,6 +108,9 @@ def sensitivity(chk, seed, only=None):
             shutil.rmtree(tmp, ignore_errors=True)
         print("%-40s %-8s %-18s %s" % rows[-1])
         sys.stdout.flush()
+    if not only:
+        json.dump({"seed": seed, "rows": [{"name": r[0], "property": r[1], "status": r[2], "detail": r[3]} for r in rows]},
+                  open(os.path.join(chk.VERIF, "mutants", "last_sensitivity.json"), "w"), indent=1, ensure_ascii=False)
     missed = [r for r in rows if r[2] != "DETECTED"]
     print("sensitivity self-test: %d mutants, %d detected, %d not" % (len(rows), len(rows) - len(missed), len(missed)))
     return 0 if not missed else 3
